@@ -390,18 +390,44 @@ theorem ginv_vote {T : List LEv} {a b : Node} (hfit : C06.Fits a.cfg.members) (h
     obtain ⟨p1, ⟨ppm, hg, hc⟩, p3⟩ := hb.prep pv hpv
     exact ⟨p1, ⟨ppm, hg, List.mem_cons_of_mem _ hc⟩, p3⟩
 
-theorem blk_cfg {a b : Node} {l : List Out} {g : List LEv} (h : Blk a b l g) : b.cfg = a.cfg := by
+/-- logging the delivered PREPARE / COMMIT / VIEW_CHANGE is bookkeeping -/
+theorem quiet_of_log {e : Event} {op : StoreOp} (a : Node) (he : evOp e = some op) :
+    Quiet a { a with store := a.store.apply op } := by
+  cases e with
+  | deliver m =>
+    cases m with
+    | prepare x =>
+      simp only [evOp, Option.some.injEq] at he; subst he
+      exact ⟨rfl, Nat.le_refl _, Nat.le_refl _, rfl, storePrepare_pps _ _, storePrepare_prefix _ _⟩
+    | commit x =>
+      simp only [evOp, Option.some.injEq] at he; subst he
+      exact ⟨rfl, Nat.le_refl _, Nat.le_refl _, rfl, storeCommit_pps _ _, by
+        show a.store.prepares <+: (a.store.storeCommit x).prepares
+        rw [storeCommit_prepares]; exact List.prefix_refl _⟩
+    | viewChange x =>
+      simp only [evOp, Option.some.injEq] at he; subst he
+      exact ⟨rfl, Nat.le_refl _, Nat.le_refl _, rfl, storeVC_pps _ _, by
+        show a.store.prepares <+: (a.store.storeVC x).prepares
+        rw [storeVC_prepares]; exact List.prefix_refl _⟩
+    | preprepare x => simp [evOp] at he
+    | newView x => simp [evOp] at he
+  | start c => simp [evOp] at he
+  | election h v => simp [evOp] at he
+  | cancelOlder h v => simp [evOp] at he
+
+theorem blk_cfg {e : Event} {a b : Node} {l : List Out} {g : List LEv} (h : Blk e a b l g) : b.cfg = a.cfg := by
   cases h with
-  | quiet hq _ => exact hq.cfg
-  | decide _ _ hq => exact hq.cfg
+  | quiet hq _ _ => exact hq.cfg
+  | decide _ _ _ _ _ hq => exact hq.cfg
   | _ => rfl
 
 /-- **every atomic block keeps the invariant, and the statement it makes obeys the local rules** -/
-theorem blk_inv {T : List LEv} {a b : Node} {l : List Out} {g : List LEv} (hfit : C06.Fits a.cfg.members)
-    (hT : GInv T a) (hb : Blk a b l g) : GInv (g.reverse ++ T) b := by
+theorem blk_inv {e : Event} {T : List LEv} {a b : Node} {l : List Out} {g : List LEv} (hfit : C06.Fits a.cfg.members)
+    (hT : GInv T a) (hb : Blk e a b l g) : GInv (g.reverse ++ T) b := by
   cases hb with
-  | quiet hq _ => exact ginv_quiet hfit hq hT
-  | accept ppm f rcpt hh hv hnone hnl hlock =>
+  | quiet hq _ _ => exact ginv_quiet hfit hq hT
+  | log op he => exact ginv_quiet hfit (quiet_of_log a he) hT
+  | accept ppm f rcpt hh hv hnone hnl hlock hsrc =>
     refine ginv_store_pp hfit hT ppm f hh hv hnone ?_ ?_ rfl rfl rfl rfl (storePrepare_pps _ _) ?_
     · intro hpos
       rcases hlock with h | h | h
@@ -413,14 +439,15 @@ theorem blk_inv {T : List LEv} {a b : Node} {l : List Out} {g : List LEv} (hfit 
       have := storePrepare_prefix (a.store.storePP ppm) (ownPrepare a.cfg ppm.c.header.height ppm.c.header.view ppm.c.header.hash)
       rw [storePP_prepares] at this
       exact this
-  | prepared v hash rcpt hv hnot hpp hproof => exact ginv_prepared hfit hT v hash hv hpp hproof
+  | prepared v hash rcpt hv hnot hpp hproof =>
+    exact ginv_prepared hfit hT v hash hv (by obtain ⟨q, h1, h2, _⟩ := hpp; exact ⟨q, h1, h2⟩) hproof
   | late h v hash rcpt hq =>
     exact ginv_neutral hT trivial (by intro _ _ _ h; cases h) (by intro _ _ _ h; cases h) (by intro _ _ h; cases h)
-  | decide blk cs hq =>
-    have h1 : GInv (LEv.dec blk.hash :: T) a :=
+  | decide blk cs h v hash hq hs hcs hcq hpp =>
+    have h1 : GInv (LEv.dec (commitHash cs) :: T) a :=
       ginv_neutral hT trivial (by intro _ _ _ h; cases h) (by intro _ _ _ h; cases h) (by intro _ _ h; cases h)
     exact ginv_quiet hfit hq h1
-  | propose ppm f o hh hv hnone hlnv hf ho =>
+  | propose ppm f o hh hv hnone hlnv hf ho hown hsrc =>
     refine ginv_store_pp hfit hT ppm f hh hv hnone ?_ (fun _ => hlnv) rfl rfl rfl rfl rfl ?_
     · intro hpos
       rcases hf with h | h
@@ -428,19 +455,19 @@ theorem blk_inv {T : List LEv} {a b : Node} {l : List Out} {g : List LEv} (hfit 
       · exact Or.inl h
     · show a.store.prepares <+: (a.store.storePP ppm).prepares
       rw [storePP_prepares]; exact List.prefix_refl _
-  | voteSend vc rcpt hv hp => exact ginv_vote hfit hT vc true hp (Quiet.refl a) rfl
-  | voteStore vc hv hp =>
+  | voteSend vc rcpt hv hp _ => exact ginv_vote hfit hT vc true hp (Quiet.refl a) rfl
+  | voteStore vc hv hp hown _ _ =>
     refine ginv_vote hfit hT vc false hp ⟨rfl, Nat.le_refl _, Nat.le_refl _, rfl, storeVC_pps _ _, ?_⟩ rfl
     show a.store.prepares <+: (a.store.storeVC vc).prepares
     rw [storeVC_prepares]; exact List.prefix_refl _
 
-theorem runs_cfg {w w' : Term.W} {g : List LEv} (h : Runs w w' g) : w'.n.cfg = w.n.cfg := by
+theorem runs_cfg {e : Event} {w w' : Term.W} {g : List LEv} (h : Runs e w w' g) : w'.n.cfg = w.n.cfg := by
   induction h with
   | refl => rfl
   | blk _ hb => exact blk_cfg hb
   | trans _ _ ih1 ih2 => rw [ih2, ih1]
 
-theorem runs_inv {w w' : Term.W} {g : List LEv} (h : Runs w w' g) :
+theorem runs_inv {e : Event} {w w' : Term.W} {g : List LEv} (h : Runs e w w' g) :
     ∀ {T : List LEv}, C06.Fits w.n.cfg.members → GInv T w.n → GInv (g.reverse ++ T) w'.n := by
   induction h with
   | refl => intro T _ hT; exact hT
@@ -461,7 +488,7 @@ def EventOK (c : Cfg) : Event → Prop
   | .start _ => False
   | .deliver (.preprepare m) => m.c.header.height = c.height ∧ m.c.sender.id ≠ c.me
   | .deliver (.prepare m) => m.header.height = c.height
-  | .deliver (.newView m) => m.header.height = c.height ∧ m.pp.sender.id ≠ c.me
+  | .deliver (.newView m) => m.header.height = c.height ∧ m.sender.id ≠ c.me
   | _ => True
 
 theorem eventLocal_of_ok (n : Node) (e : Event) (h : EventOK n.cfg e) : EventLocal n e := by
